@@ -15,8 +15,11 @@
      l.append / clear / reverse   l ++ [x] / [] / rev l
      enumerate(l)                 py_enumerate
      edge lengths                 option Z (None = Python None); a += b raises TypeError on None
-     for x in l: body             mfor over the list value read at loop entry, threading the
-                                  loop-carried locals; break = LBreak; for-else runs after LNext *)
+     for x in l: body             mfor over the list value, threading the loop-carried locals; break =
+                                  LBreak; for-else runs after LNext.  When l is a LIVE child list (an
+                                  alias / x._child_nodes) and some path through the body changes the
+                                  object graph and then continues iterating, mfor_live is used instead:
+                                  Python's list iterator (index i; stops when i >= len of the CURRENT list) *)
 From Coq Require Import ZArith List Bool.
 From DV Require Import Model.PyPrims Model.C15Prims.
 Import ListNotations.
@@ -42,6 +45,7 @@ Record mutgraph : Type := {
   rd_kids : mst -> mnode -> list mnode;               (* x._child_nodes (the list object's content) *)
   wr_kids : mnode -> list mnode -> mst -> mst;        (* in-place mutation or rebinding of that list *)
   rd_edge : mst -> mnode -> medge;                    (* x._edge *)
+  rd_taxon : mst -> mnode -> option Z;                (* x.taxon (identity of the Taxon object) *)
   rd_head : mst -> medge -> mnode;                    (* e._head_node (every Edge has a head node) *)
   rd_length : mst -> medge -> option Z;               (* e.length *)
   wr_length : medge -> option Z -> mst -> mst;
@@ -60,6 +64,9 @@ Record mutgraph : Type := {
   (* the nodes self.postorder_node_iter() yields, as a list fixed when the loop is entered
      (None: the structure is not a readable tree - model fuel) *)
   x_postorder_nodes : mst -> option (list mnode);
+  x_leaf_nodes : mst -> option (list mnode);                         (* self.leaf_node_iter(), likewise *)
+  x_preorder_nodes : mst -> option (list mnode);                     (* self.preorder_node_iter(), likewise *)
+  x_leaf_nodes_of : mst -> mnode -> option (list mnode);             (* node.leaf_iter() *)
   x_collapse_basal_bifurcation : bool -> mst -> mres_ mst            (* set_as_unrooted_tree; used where a compiled
                                                                        method calls it as a black box *)
 }.
@@ -140,4 +147,33 @@ Fixpoint mwhile {S V} (fuel : nat) (step : V -> S -> mres S (lctl V)) (v : V) (s
     | MErr e s' => MErr e s'
     | MFuel => MFuel
     end
+  end.
+
+(* the list iterator over a list object that the body may mutate: position i of the current content *)
+Fixpoint mfor_live {S X V} (fuel : nat) (read : S -> list X) (body : X -> V -> S -> mres S (lctl V))
+         (i : nat) (v : V) (s : S) : mres S (lctl V) :=
+  match fuel with
+  | O => MFuel
+  | Datatypes.S n =>
+    match nth_error (read s) i with
+    | None => MOk (LNext v) s
+    | Some x =>
+      match body x v s with
+      | MOk (LNext v') s' => mfor_live n read body (Datatypes.S i) v' s'
+      | MOk (LBreak v') s' => MOk (LBreak v') s'
+      | MErr e s' => MErr e s'
+      | MFuel => MFuel
+      end
+    end
+  end.
+
+(* scripted random.Random: each call consumes the next entry of the script (a list of indices) ---- *)
+(* rng.shuffle(c): the entry lists, for each new position, the old index (None: script exhausted / ill-formed) *)
+Fixpoint py_nths {A} (l : list A) (ix : list nat) : option (list A) :=
+  match ix with
+  | [] => Some []
+  | i :: r => match nth_error l i, py_nths l r with
+              | Some x, Some xs => Some (x :: xs)
+              | _, _ => None
+              end
   end.
